@@ -573,9 +573,22 @@ func registerStd() {
 		return Agg{zero64, v, nilPtr()}
 	}, "time.Now")
 	reg(func(ex *Exec, fn *ssa.Function, args []Value, caller *frame) Value {
-		v := ex.freshVar("since", 64, "env")
-		ex.assume(ex.st.And(ex.st.Sle(zero64, v), ex.st.Sle(v, c64(1<<50))))
-		return v
+		// elapsed time: two representative durations (just now / one hour),
+		// explored as a fork; throttles compare it with constants in between
+		var c int
+		if ex.concrete {
+			if ex.concPos < len(ex.concVals) {
+				c = int(ex.concVals[ex.concPos])
+			}
+			ex.concPos++
+		} else {
+			c = ex.choose(2)
+		}
+		ex.inputs = append(ex.inputs, inputRec{Name: fmt.Sprintf("since#%d", len(ex.inputs)), W: 64, term: c64(int64(c)), Kind: "env"})
+		if c == 0 {
+			return zero64
+		}
+		return c64(3600_000_000_000)
 	}, "time.Since")
 	reg(func(ex *Exec, fn *ssa.Function, args []Value, caller *frame) Value {
 		return nil
